@@ -271,3 +271,17 @@ def check(ctx):
                         [G.own_method("_serviceOneTxPkt"), G.own_method("_serviceOneReceived")], ("D8", "D1"))
     for fd in found:
         ctx.bad(fd.rule, fd.node, fd.construct, fd.why)
+    # a local bound only when the socket call succeeded must not be read on the path through the handler that classified the
+    # failure as retryable (the function goes on after the except arm)
+    ctx.rule("D1c", "no local of the transport/stack I/O functions is read on a path on which nothing bound it (a binding whose "
+             "right-hand side raised does not count)")
+    from ..rules import possibly_unbound
+    fns = [ctx.cls(m, c).own_method(x) for m, c, _ in STREAM for x in ("receive", "send")] + \
+        [f for n_, f in G.methods.items() if n_.startswith(("_serviceOne", "serviceTx", "serviceRx", "serviceReceive"))]
+    for f in fns:
+        V = FuncView(ctx, f, exc="calls")
+        pu = possibly_unbound(V)
+        ctx.check(not pu, "D1c", pu[0][0].ast if pu else f,
+                  "%s: every read local is bound on every path%s" % (f.name, (" - `%s` in %s" % (pu[0][1], src(pu[0][0].ast)[:50])) if pu else ""),
+                  "the failure the handler meant to treat as `try again later` ends in UnboundLocalError: the error is fatal instead of "
+                  "retryable and the packet deferred for the retry is lost")
